@@ -319,6 +319,9 @@ pub fn render(c: &Case) -> String {
                     Kind::NotFound => format!("nosuch_cmd {rs}"),
                     Kind::Empty => rs.to_string(),
                     Kind::Exec => format!("exec {rs}"),
+                    // (every other one with a pathname expansion: reading a
+                    // directory must not leave a descriptor behind either)
+                    Kind::Colon if k % 2 == 0 => format!(": /work/* e* {rs}"),
                     Kind::Colon => format!(": {rs}"),
                 };
                 s.push_str(line.trim_end());
